@@ -828,8 +828,8 @@ def op_apply_sustain_control_changes (ix : Nat → Nat) : OpDef := ⟨"apply_sus
     .assign 10 (.copyOf (.var 0)),
     .assign 6 .scalar,
     .assign 15 .scalar,
-    .assign 17 (.field (.var 0)),
-    .loop [F, B, N, N, N, N, N, N, N, N, F, N, N, N, N, F, F, F] (
+    .assign 17 (.field (.var 10)),
+    .loop [B, B, N, N, N, N, N, N, N, N, F, N, N, N, N, F, F, F] (
       .block [
         .assign 16 (.elem (.var 17)),
         .ite (
@@ -845,7 +845,7 @@ def op_apply_sustain_control_changes (ix : Nat → Nat) : OpDef := ⟨"apply_sus
     .assign 12 (.tuple [(.var 12), (.var 15)]),
     .assign 18 .scalar,
     .assign 20 (.field (.var 10)),
-    .loop [F, B, F, N, F, F, F, F, F, F, F, N, F, N, N, F, F, F, F, F, F] (
+    .loop [B, B, F, N, F, F, F, F, F, F, F, N, F, N, N, F, F, F, F, F, F] (
       .block [
         .assign 19 (.elem (.var 20)),
         .ite (
@@ -860,7 +860,7 @@ def op_apply_sustain_control_changes (ix : Nat → Nat) : OpDef := ⟨"apply_sus
     .assign 9 (.tuple [(.var 9), (.var 18)]),
     .assign 12 (.tuple [(.var 12), (.var 18)]),
     .assign 21 (.field (.var 10)),
-    .loop [F, B, F, F, F, F, F, F, F, F, F, N, F, N, N, F, F, F, F, F, F, F] (
+    .loop [B, B, F, F, F, F, F, F, F, F, F, N, F, N, N, F, F, F, F, F, F, F] (
       .block [
         .assign 3 (.elem (.var 21)),
         .ite (
@@ -892,7 +892,7 @@ def op_apply_sustain_control_changes (ix : Nat → Nat) : OpDef := ⟨"apply_sus
     .assign 11 .scalar,
     .assign 12 .scalar,
     .assign 22 (.var 6),
-    .loop [F, B, F, F, F, F, F, F, F, F, F, N, F, N, N, F, F, F, F, F, F, F, F, N, N, F, F, F, F] (
+    .loop [B, B, F, F, F, F, F, F, F, F, F, N, F, N, N, F, F, F, F, F, F, F, F, N, N, F, F, F, F] (
       .block [
         .assign 12 (.elem (.elem (.var 22))),
         .assign 5 (.elem (.elem (.var 22))),
@@ -904,7 +904,7 @@ def op_apply_sustain_control_changes (ix : Nat → Nat) : OpDef := ⟨"apply_sus
               .assign 24 .scalar,
               .assign 8 .scalar,
               .assign 25 (.elem (.var 2)),
-              .loop [F, B, F, F, F, F, F, F, F, F, F, N, F, N, N, F, F, F, F, F, F, F, F, N, N, F, F, F, F] (
+              .loop [B, B, F, F, F, F, F, F, F, F, F, N, F, N, N, F, F, F, F, F, F, F, F, N, N, F, F, F, F] (
                 .block [
                   .assign 9 (.elem (.var 25)),
                   .ite (
@@ -941,7 +941,7 @@ def op_apply_sustain_control_changes (ix : Nat → Nat) : OpDef := ⟨"apply_sus
                   .block [
                     .assign 8 .scalar,
                     .assign 27 (.elem (.var 2)),
-                    .loop [F, B, F, F, F, F, F, F, F, F, F, N, F, N, N, F, F, F, F, F, F, F, F, N, N, F, F, F, F] (
+                    .loop [B, B, F, F, F, F, F, F, F, F, F, N, F, N, N, F, F, F, F, F, F, F, F, N, N, F, F, F, F] (
                       .block [
                         .assign 9 (.elem (.var 27)),
                         .ite (
@@ -990,11 +990,11 @@ def op_apply_sustain_control_changes (ix : Nat → Nat) : OpDef := ⟨"apply_sus
                 .skip) (
                 .raise))))]),
     .assign 29 (.var 2),
-    .loop [F, B, F, F, F, F, F, F, F, F, F, N, F, N, N, F, F, F, F, F, F, F, F, N, N, F, F, F, F, F, F] (
+    .loop [B, B, F, F, F, F, F, F, F, F, F, N, F, N, N, F, F, F, F, F, F, F, F, N, N, F, F, F, F, F, F] (
       .block [
         .assign 7 (.elem (.var 29)),
         .assign 30 (.var 7),
-        .loop [F, B, F, F, F, F, F, F, F, F, F, N, F, N, N, F, F, F, F, F, F, F, F, N, N, F, F, F, F, F, F] (
+        .loop [B, B, F, F, F, F, F, F, F, F, F, N, F, N, N, F, F, F, F, F, F, F, F, N, N, F, F, F, F, F, F] (
           .block [
             .assign 9 (.elem (.var 30)),
             .write 1669 (.var 9),
@@ -1002,7 +1002,7 @@ def op_apply_sustain_control_changes (ix : Nat → Nat) : OpDef := ⟨"apply_sus
               .write 1671 (.var 10)) (
               .skip)])]),
     .ret (.var 10)]⟩
-def ct_apply_sustain_control_changes : Contract := ⟨[F, B], F⟩
+def ct_apply_sustain_control_changes : Contract := ⟨[B, B], F⟩
 
 /-- `remove_redundant_data` (sequences_lib.py:421)  params: sequence
 variables: 0=sequence 1=added_composer 2=added_genre 3=composer 4=events 5=fixed_sequence 6=genre 7=i 8=tmp_ts 9=%it439_16 10=e@key443 11=%it444_13 12=%it456_20 13=%it463_17
